@@ -22,6 +22,10 @@ OTHERS = {
     "b'x'": (True, 6),
     "range(2)": (True, 7),
     "('e1',)": (True, 8),
+    # numbers that are not primitive argument / option values (only str, bool, int, float are)
+    "1j": (True, 9),
+    "__import__('fractions').Fraction(1, 2)": (True, 10),
+    "__import__('decimal').Decimal('1.5')": (True, 11),
 }
 
 
